@@ -9,4 +9,7 @@ CASES = [
     dict(expect="fire", desc="outer completion completes while inner live", names="W3-completion-join", edits=[dict(file=SW,
          old="            is_stopped[0] = True\n            if not has_latest[0]:\n                observer.on_completed()", new="            is_stopped[0] = True\n            observer.on_completed()")]),
     dict(expect="silent", desc="stale guard spelled the other way round", edits=[dict(file=SW, old="if latest[0] == _id:", new="if _id == latest[0]:", count=None)]),
+    dict(expect="silent", desc="switch_latest: inner completion as a guard clause", edits=[dict(file="reactivex/operators/_switchlatest.py",
+         old="                if latest[0] == _id:\n                    has_latest[0] = False\n                    if is_stopped[0]:\n                        observer.on_completed()",
+         new="                if latest[0] != _id:\n                    return\n                has_latest[0] = False\n                if is_stopped[0]:\n                    observer.on_completed()")]),
 ]
